@@ -123,6 +123,11 @@ def nontrivial(chk, p, r, m):
     return any(b["decision"] == "built" and features(b) for b in r.get("dump", []))
 
 
+def bkey(b):
+    """an app name may be defined in several contexts: a build is (builder, app name, the app's context)"""
+    return (b["builder"], b["app"], b.get("app_context"))
+
+
 def drop_failed_optional(p, r, rng=None):
     """metamorphic partner: remove one optional dependency `?x` that is unresolved in EVERY configured build
     (x selected nowhere, no selected module provides x). In those builds it "cannot be resolved", so they must not change."""
@@ -195,8 +200,8 @@ def run(chk):
         chk.count("metamorphic:optional-deleted")
         chk.evaluations += 1
         # only builds configured in the original run are compared: there the dependency was unresolved
-        a = {(b["builder"], b["app"]): [x["name"] for x in b["modules"]] for b in r["dump"] if b["decision"] == "built"}
-        b2 = {(b["builder"], b["app"]): [x["name"] for x in b.get("modules", [])] for b in r2["dump"] if (b["builder"], b["app"]) in a}
+        a = {bkey(b): [x["name"] for x in b["modules"]] for b in r["dump"] if b["decision"] == "built"}
+        b2 = {bkey(b): [x["name"] for x in b.get("modules", [])] for b in r2["dump"] if bkey(b) in a}
         if projrun.impl_status(r2) != "ok" or a != b2:
             chk.fail_oracle("order:optional-not-invisible", "deleting an optional dependency that is unresolved in every configured build changed those builds",
                             {"project": p, "without_optional": q, "before": {str(k): v for k, v in a.items()}, "after": {str(k): v for k, v in b2.items()}})
@@ -204,8 +209,8 @@ def run(chk):
 
     def check_pair(p, r, q):
         r2 = projrun.run_impl(q)
-        a = {(b["builder"], b["app"]): [x["name"] for x in b["modules"]] for b in r["dump"] if b["decision"] == "built"}
-        b2 = {(b["builder"], b["app"]): [x["name"] for x in b.get("modules", [])] for b in r2["dump"] if (b["builder"], b["app"]) in a}
+        a = {bkey(b): [x["name"] for x in b["modules"]] for b in r["dump"] if b["decision"] == "built"}
+        b2 = {bkey(b): [x["name"] for x in b.get("modules", [])] for b in r2["dump"] if bkey(b) in a}
         if projrun.impl_status(r2) != "ok" or a != b2:
             return ("order:optional-not-invisible", "deleting an optional dependency that is unresolved in every configured build changed those builds",
                     {"project": p, "without_optional": q, "before": {str(k): v for k, v in a.items()}, "after": {str(k): v for k, v in b2.items()}})
